@@ -557,7 +557,9 @@ func (c *Case) nBytes(v any, name string) *Node {
 	return &Node{Kind: KBytes, T: tof(v), Name: name, S: c.regS(tof(v))}
 }
 
-func field(goName string, idx int, n *Node) *Field { return &Field{GoName: goName, Index: idx, N: n, Key: fieldKey(goName)} }
+func field(goName string, idx int, n *Node) *Field {
+	return &Field{GoName: goName, Index: idx, N: n, Key: fieldKey(goName)}
+}
 
 // fieldKey mirrors the documented default JSON key: field name in camel case.
 func fieldKey(name string) string {
